@@ -74,10 +74,15 @@ impl Universe {
             "[::1]:65535".parse().unwrap(),
             "10.0.0.1:3479".parse().unwrap(), // same ip, other port
             "[::ffff:198.51.100.3]:40000".parse().unwrap(), // IPv4-mapped IPv6
+            // the same link-local ip and port on two links (scope ids), and two flow labels: four different socket addresses
+            SocketAddr::V6(std::net::SocketAddrV6::new("fe80::1".parse().unwrap(), 3478, 0, 2)),
+            SocketAddr::V6(std::net::SocketAddrV6::new("fe80::1".parse().unwrap(), 3478, 0, 3)),
+            SocketAddr::V6(std::net::SocketAddrV6::new("fe80::1".parse().unwrap(), 3478, 7, 3)),
         ];
-        let off = (seed % 6) as usize;
+        let nc = cands.len();
+        let off = (seed % nc as u64) as usize;
         for i in 0..6 {
-            addrs.insert(format!("a{}", i + 1), cands[(i + off) % 6]);
+            addrs.insert(format!("a{}", i + 1), cands[(i + off) % nc]);
         }
         // a larger population of peers for histories that need many distinct addresses
         for i in 7..=330u16 {
@@ -381,6 +386,8 @@ impl<'u> Run<'u> {
                         b.add_fingerprint().unwrap();
                     }
                     let bytes = b.clone().build();
+                    // (sometimes the builder is detached from the borrowed attributes, or cloned, after sealing and before it is sent)
+                    let b = match self.seed % 5 { 2 => b.into_owned(), 3 => b.clone(), _ => b };
                     let at = self.at(now_units);
                     let r = catch_unwind(AssertUnwindSafe(|| self.agent.send(b, to, at).map(own)));
                     match r {
